@@ -545,7 +545,7 @@ def gen_string_case(rng):
         elif shape == 'in':
             inner = col + sp1() + 'IN' + sp1() + '(' + s1 + sp() + ',' + sp() + s2 + ')'
         elif shape == 'in-end':
-            inner = s1 + sp1() + 'IN' + sp1() + '(' + col + ',' + sp() + s2 + sp() + ')'
+            inner = s1 + sp1() + 'IN' + sp1() + '(' + sp() + "'k'," + sp() + s2 + sp() + ')'
         elif shape == 'middle':
             inner = 'length(' + s1 + ')' + sp() + '+' + sp() + 'qty'
         elif shape == 'nested':
